@@ -262,6 +262,7 @@ func exec(r *mon.Run, e *env, c *Case) {
 		opts = append(opts, larking.HTTPHandlerOption(p, http.HandlerFunc(func(w http.ResponseWriter, rq *http.Request) {
 			extraSeen = append(extraSeen, p+"<-"+rq.URL.Path)
 			w.Header().Set("X-Extra", p)
+			w.Header().Set("X-Extra-Path", rq.URL.Path)
 			w.WriteHeader(299)
 		})))
 	}
@@ -293,6 +294,8 @@ func exec(r *mon.Run, e *env, c *Case) {
 		if own {
 			if mid != before || got.Code != 299 || got.Header.Get("X-Extra") != p {
 				r.Violate("extra-handler-not-served:"+c.Req.Kind, fmt.Sprintf("%s belongs to extra handler %s but got status %d (mux calls %d)", c.URLPath, p, got.Code, mid-before), c)
+			} else if seen := got.Header.Get("X-Extra-Path"); seen != c.URLPath {
+				r.Violate("extra-handler-saw-rewritten-path", fmt.Sprintf("extra handler %s was called for %s but saw URL path %q", p, c.URLPath, seen), c)
 			} else {
 				r.Distinct("extra:" + p)
 			}
@@ -346,14 +349,29 @@ func Run(r *mon.Run) {
 	sets := patternSets()
 	reqs := requests(e.std)
 	outside := []string{"/zzz", "/ap", "/apix", "/a/bx", "/twirpx", "/b"}
+	type setCfg struct {
+		set   []string
+		extra []string
+	}
+	var cfgs []setCfg
 	for si, set := range sets {
 		if !r.Thorough() && si%3 != int(r.Seed%3) && len(set) > 2 {
 			continue
 		}
-		var extra []string
-		if si%2 == 0 {
-			extra = []string{"/extra/", "/static/file"}
+		withExtra := []string{"/extra/", "/static/file"}
+		switch {
+		case r.Thorough() || len(set) == 1:
+			// single mounts (and everything in thorough) run both with and
+			// without extra handlers: NewServer takes different paths
+			cfgs = append(cfgs, setCfg{set, nil}, setCfg{set, withExtra})
+		case si%2 == 0:
+			cfgs = append(cfgs, setCfg{set, withExtra})
+		default:
+			cfgs = append(cfgs, setCfg{set, nil})
 		}
+	}
+	for _, cfg := range cfgs {
+		set, extra := cfg.set, cfg.extra
 		prefixes := map[string]bool{}
 		for _, p := range set {
 			prefixes[strings.TrimSuffix(p, "/")] = true
@@ -370,6 +388,20 @@ func Run(r *mon.Run) {
 			q := reqs[rng.Intn(len(reqs))]
 			exec(r, e, &Case{Patterns: set, Extra: extra, URLPath: o + q.Path, Req: q})
 		}
+		// a prefix glued to a route without the separating slash
+		// ("/api" + "v1/echo") is outside the prefix: mounts end at a
+		// path-segment boundary
+		for pre := range prefixes {
+			if pre == "" || prefixes[""] {
+				continue
+			}
+			for _, q := range reqs {
+				if len(q.Path) < 2 || (!r.Thorough() && rng.Intn(3) != 0) {
+					continue
+				}
+				exec(r, e, &Case{Patterns: set, Extra: extra, URLPath: pre + q.Path[1:], Req: q})
+			}
+		}
 		if !prefixes[""] {
 			// the bare routes themselves are outside every prefix when "/"
 			// is not mounted: they must not be served either
@@ -383,7 +415,7 @@ func Run(r *mon.Run) {
 		for _, p := range extra {
 			u := p
 			if strings.HasSuffix(p, "/") {
-				u += "some/file.txt"
+				u += "some/dir/file.txt"
 			}
 			exec(r, e, &Case{Patterns: set, Extra: extra, URLPath: u, Req: ReqSpec{Kind: "http", Verb: "GET", Path: u}})
 		}
